@@ -205,6 +205,8 @@ def run_harness(unit, h, base, tier, memlimit_kb, playback=False):
         if missing and not os.path.exists(logf + '.loops'):
             pass
     cmd = kani_cmd(unit, h, tgt, out_json, playback, uw)
+    if h.get('mem_gb'):
+        memlimit_kb = max(memlimit_kb, int(h['mem_gb']) * 1024 * 1024)
     sh = 'ulimit -v %d; exec timeout -k 10 %d %s' % (memlimit_kb, timeout, ' '.join("'" + c + "'" for c in cmd))
     with open(logf, 'w') as lf:
         rc = subprocess.run(['bash', '-c', sh], cwd=os.path.join(unit.dir, unit.pkg), stdout=lf, stderr=subprocess.STDOUT, env=env).returncode
@@ -287,7 +289,9 @@ def parse_result(h, rc, out_json, logf):
             if 'verif_h' not in fn and 'verif_env' not in fn:
                 fnset.add(fn)
         if st == 'Failure':
-            if UNWIND_RE.search(desc):
+            if UNWIND_RE.search(desc) and h.get('unwind_violation') and re.search(h['unwind_violation'], desc + ' ' + fn):
+                failed.append({'description': desc + ' (bound exceeds every legitimate depth: unbounded recursion/loop)', 'location': locs, 'function': fn, 'category': cat})
+            elif UNWIND_RE.search(desc):
                 unwind_fail = True
                 res.setdefault('unwind_failures', []).append(desc + ' @' + locs + ' in ' + fn)
             else:
@@ -482,6 +486,7 @@ def main(argv):
     ap.add_argument('--jobs', type=int, default=int(os.environ.get('VERIF_JOBS', '0')))
     ap.add_argument('--keep', action='store_true')
     ap.add_argument('--replay')
+    ap.add_argument('--compile', action='store_true', help='only compile the scratch units under Kani and show errors')
     ap.add_argument('--no-evidence', action='store_true')
     a = ap.parse_args(argv)
     if a.keep:
@@ -498,12 +503,42 @@ def main(argv):
     try:
         if a.replay:
             return do_replay(spec, a.replay, base)
+        if a.compile:
+            return do_compile(spec, base)
         return run_check(spec, tier, seed, a, base, t0)
     finally:
         if not os.environ.get('VERIF_KEEP'):
             shutil.rmtree(base, ignore_errors=True)
         else:
             log('kept scratch:', base)
+
+
+def do_compile(spec, base):
+    env = dict(os.environ, CARGO_NET_OFFLINE='true', CARGO_TERM_COLOR='never')
+    env.pop('RUSTUP_TOOLCHAIN', None)
+    rc = 0
+    for u in spec['units']:
+        unit = Unit(spec['id'], u)
+        try:
+            unit.generate(base)
+        except cut.EncodeError as e:
+            print('%s: EncodeError: %s' % (unit.name, e))
+            rc = 2
+            continue
+        tgt = os.path.join(base, 'tgt_compile')
+        if not os.path.isdir(tgt):
+            seed_target(tgt)
+        cmd = ['cargo', 'kani', '--target-dir', tgt, '--only-codegen', '-Z', 'unstable-options', '-Z', 'stubbing']
+        if u.get('features'):
+            cmd += ['--features', u['features']]
+        r = subprocess.run(cmd, cwd=os.path.join(unit.dir, unit.pkg), env=env, stdout=subprocess.PIPE, stderr=subprocess.STDOUT, text=True, errors='replace')
+        errs = re.findall(r'^error.*?(?=^(?:error|warning)|\Z)', r.stdout, re.M | re.S)
+        print('unit %s: rc=%d, %d error(s)' % (unit.name, r.returncode, len(errs)))
+        for e in errs[:12]:
+            print(e[:1500])
+        if r.returncode != 0:
+            rc = 2
+    return rc
 
 
 def do_replay(spec, rdir, base):
@@ -550,7 +585,9 @@ def run_check(spec, tier, seed, a, base, t0):
             r = f.result()
             r['spec'] = h
             results.append((u, h, r))
-            log('  %-40s %-12s %6.1fs checks=%d %s' % (h['name'], r['status'], r['wall_s'], r['checks_total'], r['reason']))
+            st = r.get('stats') or {}
+            log('  %-40s %-12s %6.1fs checks=%d symex=%.0fs sat=%.0fs %s' % (h['name'], r['status'], r['wall_s'], r['checks_total'],
+                float(st.get('runtime_symex_s') or 0), float(st.get('runtime_decision_procedure_s') or 0), r['reason']))
     known = load_known()
     violations = []
     known_lines = []
